@@ -380,6 +380,10 @@ func decodeKey(d *structDecoder, buf []byte, cursor int64) (int64, *structFieldS
 	if err != nil {
 		return 0, nil, err
 	}
+	if key == nil {
+		// the string reader takes the literal null: an object key is a string
+		return 0, nil, errors.ErrInvalidBeginningOfValue('n', cursor)
+	}
 	cursor = c
 	k := *(*string)(unsafe.Pointer(&key))
 	field, exists := d.fieldMap[k]
@@ -674,6 +678,10 @@ func decodeKeyStream(d *structDecoder, s *Stream) (*structFieldSet, string, erro
 	key, err := d.stringDecoder.decodeStreamByte(s)
 	if err != nil {
 		return nil, "", err
+	}
+	if key == nil {
+		// the string reader takes the literal null: an object key is a string
+		return nil, "", errors.ErrInvalidBeginningOfValue('n', s.totalOffset())
 	}
 	k := *(*string)(unsafe.Pointer(&key))
 	return d.fieldMap[k], k, nil
